@@ -65,9 +65,10 @@ func run(r *vk.Run) {
 		"callbacks, interceptors, filters, comparers and consumers only read the messages they are given; each written message is handed to exactly one call and never touched again by the harness",
 		"WithRNG readers are not synchronised by the caller: neither resource.WithRNG nor electricpb.WithRNG documents that requirement (an electric model gets its own *rand.Rand when one is passed)",
 		"wrapped streams are used within gRPC's contract: one sending and one receiving goroutine per stream, CloseSend after the last send, Trailer only after RecvMsg returned an error; the client may cancel its context at any time",
-		"panics recovered on the caller's goroutine and call errors are counted, not judged (other properties own them); absence of a report means none observed on these schedules")
+		"panics recovered on the caller's goroutine and call errors are counted, not judged (other properties own them); absence of a report means none observed on these schedules",
+		"a program that does not finish within 90 s of wall clock is abandoned: inconclusive (hang/<family>), or only noted when a recovered panic preceded the hang; a worker restarted by the driver after a fatal error resumes from its last saved record (counter resumed-after-crash)")
 
-	nProg := r.Pick(357, 30600) // multiples of 17 families x 3 yield modes
+	nProg := r.Pick(1071, 102000) // multiples of 17 families x 3 yield modes
 	opsLo, opsHi := 260, 460
 	pg := loadProgress()
 	lastSave := time.Now()
